@@ -5,6 +5,7 @@ import (
 	"go/ast"
 	"go/token"
 	"go/types"
+	"golang.org/x/tools/go/packages"
 	"sort"
 	"strings"
 
@@ -59,6 +60,8 @@ func checkC11(c *Ctx, r *Report) {
 	checkAztecModeMessage(c, r)
 	checkAztecCut(c, r)
 	checkAztecCorners(c, r)
+	checkAztecRotation(c, r)
+	checkAztecCharset(c, r)
 	checkAztecDecoderState(c, r)
 	checkAztecReadCode(c, r, "M-READCODE")
 	// the six fields' constants (shared with C04)
@@ -172,6 +175,21 @@ func checkAztecDispatch(c *Ctx, r *Report) {
 	// latch vs shift: in getEncodedData the branch for "CTRL_" codes: shiftTable = getTable(str[5]); if str[6] == 'L' { latchTable = shiftTable }
 	if fd, p := c.funcDeclOf("aztec/decoder", "Decoder.getEncodedData"); fd != nil {
 		ok := false
+		// the table for the next read is what getCharacter is given; the latched table is what it is reset to after a shift
+		var shiftObj, latchObj types.Object
+		for _, call := range findCalls(p, fd.Body, func(o types.Object) bool { return isFuncNamed(o, "aztec/decoder", "getCharacter") }) {
+			if len(call.Args) == 2 {
+				shiftObj = identObj(p, call.Args[0])
+			}
+		}
+		ast.Inspect(fd.Body, func(n ast.Node) bool {
+			if as, isA := n.(*ast.AssignStmt); isA && as.Tok == token.ASSIGN && len(as.Lhs) == 1 && len(as.Rhs) == 1 && shiftObj != nil {
+				if l, r2 := identObj(p, as.Lhs[0]), identObj(p, as.Rhs[0]); l == shiftObj && r2 != nil && r2 != shiftObj {
+					latchObj = r2
+				}
+			}
+			return true
+		})
 		ast.Inspect(fd.Body, func(n ast.Node) bool {
 			ifs, isI := n.(*ast.IfStmt)
 			if !isI {
@@ -189,7 +207,7 @@ func checkAztecDispatch(c *Ctx, r *Report) {
 			ch, isL := constInt(p, be.Y)
 			if isC && isL && i6 == 6 && ch == 'L' && len(ifs.Body.List) == 1 {
 				if as, isA := ifs.Body.List[0].(*ast.AssignStmt); isA && len(as.Lhs) == 1 {
-					if l, r2 := identObj(p, as.Lhs[0]), identObj(p, as.Rhs[0]); l != nil && r2 != nil && l.Name() == "latchTable" && r2.Name() == "shiftTable" {
+					if l, r2 := identObj(p, as.Lhs[0]), identObj(p, as.Rhs[0]); l != nil && r2 != nil && l == latchObj && r2 == shiftObj {
 						ok = true
 					}
 				}
@@ -481,12 +499,20 @@ func checkAztecRSBeforeUnstuff(c *Ctx, r *Report) {
 				}
 			}
 		}
-		// guard numCodewords < numDataCodewords -> error
+		// guard numCodewords < numDataCodewords -> error, on the two counts whose difference is the parity count
+		var totalObj, dataObj types.Object
+		for _, call := range findCalls(p, fd.Body, func(o types.Object) bool {
+			return isMethodNamed(o, "common/reedsolomon", "ReedSolomonDecoder", "Decode")
+		}) {
+			if len(call.Args) == 2 {
+				totalObj, dataObj = differenceOf(p, fd, call.Args[1])
+			}
+		}
 		okGuard := false
 		ast.Inspect(fd.Body, func(n ast.Node) bool {
 			if ifs, ok := n.(*ast.IfStmt); ok {
 				if be, ok := ast.Unparen(ifs.Cond).(*ast.BinaryExpr); ok && be.Op == token.LSS && blockReturnsError(p, ifs.Body.List, nil) {
-					if l, r2 := identObj(p, be.X), identObj(p, be.Y); l != nil && r2 != nil && l.Name() == "numCodewords" && r2.Name() == "numDataCodewords" {
+					if l, r2 := identObj(p, be.X), identObj(p, be.Y); l != nil && r2 != nil && l == totalObj && r2 == dataObj {
 						okGuard = true
 					}
 				}
@@ -508,22 +534,23 @@ func checkAztecRSBeforeUnstuff(c *Ctx, r *Report) {
 		if first == nil {
 			bad = "codeword-count selection not found"
 		} else {
+			// the codeword count and the data-codeword count: the two variables whose difference is the parity count
+			// handed to the Reed-Solomon decoder
 			var nObj, dObj types.Object
-			for _, st := range fd.Body.List {
-				if ds, ok := st.(*ast.DeclStmt); ok {
-					for _, sp := range ds.Decl.(*ast.GenDecl).Specs {
-						for _, nm := range sp.(*ast.ValueSpec).Names {
-							if nm.Name == "numCodewords" {
-								nObj = p.TypesInfo.Defs[nm]
-							}
-							if nm.Name == "numDataCodewords" {
-								dObj = p.TypesInfo.Defs[nm]
-							}
-						}
-					}
+			for _, call := range findCalls(p, fd.Body, func(o types.Object) bool {
+				return isMethodNamed(o, "common/reedsolomon", "ReedSolomonDecoder", "Decode")
+			}) {
+				if len(call.Args) == 2 {
+					nObj, dObj = differenceOf(p, fd, call.Args[1])
 				}
 			}
+			if nObj == nil || dObj == nil {
+				bad = "the parity count handed to the Reed-Solomon decoder is not a difference of two counts"
+			}
 			for _, compact := range []bool{true, false} {
+				if bad != "" {
+					break
+				}
 				env := map[types.Object]*Val{nObj: vint(0), dObj: vint(0)}
 				rr := &rpf{c: c, p: p, env: env, selHook: func(x *rpf, sel *ast.SelectorExpr) (*Val, bool) {
 					if sel.Sel.Name == "compact" {
@@ -584,37 +611,51 @@ func checkAztecUnstuff(c *Ctx, r *Report) {
 		return
 	}
 	// the counting loop: body = if dataWord == 0 || dataWord == mask {error} else if dataWord == 1 || dataWord == mask-1 {stuffedBits++}
+	// the variables are found by their roles: the codewords are what the Reed-Solomon decoder corrected, the mask is
+	// the local defined as (1 << size) - 1, the stuffed-bit count is the zero-initialised local that the counting loop
+	// increments
 	var countLoop *ast.ForStmt
+	var maskObj, stuffedObj, wordsObj types.Object
+	for _, call := range findCalls(p, fd.Body, func(o types.Object) bool {
+		return isMethodNamed(o, "common/reedsolomon", "ReedSolomonDecoder", "Decode")
+	}) {
+		if len(call.Args) == 2 {
+			wordsObj = identObj(p, call.Args[0])
+		}
+	}
+	zeroInit := map[types.Object]bool{}
 	for _, st := range fd.Body.List {
-		if f, ok := st.(*ast.ForStmt); ok {
-			has := false
+		as, ok := st.(*ast.AssignStmt)
+		if !ok || as.Tok != token.DEFINE || len(as.Lhs) != 1 || len(as.Rhs) != 1 {
+			continue
+		}
+		o := identObj(p, as.Lhs[0])
+		if v, isK := constInt(p, as.Rhs[0]); isK && v == 0 {
+			zeroInit[o] = true
+		}
+		if be, isB := ast.Unparen(as.Rhs[0]).(*ast.BinaryExpr); isB && be.Op == token.SUB {
+			if one, isK := constInt(p, be.Y); isK && one == 1 {
+				if sh, isS := ast.Unparen(be.X).(*ast.BinaryExpr); isS && sh.Op == token.SHL {
+					maskObj = o
+				}
+			}
+		}
+	}
+	for _, st := range fd.Body.List {
+		if f, ok := st.(*ast.ForStmt); ok && countLoop == nil {
 			ast.Inspect(f, func(n ast.Node) bool {
-				if inc, ok := n.(*ast.IncDecStmt); ok {
-					if id, ok := inc.X.(*ast.Ident); ok && id.Name == "stuffedBits" {
-						has = true
+				if inc, ok := n.(*ast.IncDecStmt); ok && inc.Tok == token.INC {
+					if o := identObj(p, inc.X); o != nil && zeroInit[o] {
+						countLoop, stuffedObj = f, o
 					}
 				}
 				return true
 			})
-			if has {
-				countLoop = f
-			}
 		}
 	}
-	if countLoop == nil {
+	if countLoop == nil || maskObj == nil || stuffedObj == nil || wordsObj == nil {
 		r.Undecided("M-UNSTUFF", "aztec/decoder.Decoder.correctBits.count", c.pos(fd.Pos()), "stuffed-bit counting loop not found")
 		return
-	}
-	var maskObj, stuffedObj types.Object
-	for _, st := range fd.Body.List {
-		if as, ok := st.(*ast.AssignStmt); ok && as.Tok == token.DEFINE && len(as.Lhs) == 1 {
-			switch as.Lhs[0].(*ast.Ident).Name {
-			case "mask":
-				maskObj = identObj(p, as.Lhs[0])
-			case "stuffedBits":
-				stuffedObj = identObj(p, as.Lhs[0])
-			}
-		}
 	}
 	for _, n := range []int64{6, 8, 10, 12} {
 		key := fmt.Sprintf("aztec/decoder.Decoder.correctBits.count(%d-bit)", n)
@@ -627,7 +668,7 @@ func checkAztecUnstuff(c *Ctx, r *Report) {
 			}
 			hooks := &rpf{
 				idxHook: func(x *rpf, ix *ast.IndexExpr) (*Val, bool) {
-					if id, ok := ix.X.(*ast.Ident); ok && id.Name == "dataWords" {
+					if identObj(p, ix.X) == wordsObj {
 						return vint(w), true
 					}
 					return nil, false
@@ -988,12 +1029,29 @@ func checkAztecReadCode(c *Ctx, r *Report, rule string) {
 						continue
 					}
 					bo, ok := iff.Cond.(*ssa.BinOp)
-					if !ok || !isRest(bo.X) {
+					if !ok {
 						continue
 					}
-					// rest op K: on which edge is rest >= K (+1)?
+					// rest op K (or K op rest, written the other way round): on which edge is rest >= K (+1)?
+					cmpOp, kv := bo.Op, bo.Y
+					if !isRest(bo.X) {
+						if !isRest(bo.Y) {
+							continue
+						}
+						kv = bo.X
+						switch bo.Op {
+						case token.LSS:
+							cmpOp = token.GTR
+						case token.LEQ:
+							cmpOp = token.GEQ
+						case token.GTR:
+							cmpOp = token.LSS
+						case token.GEQ:
+							cmpOp = token.LEQ
+						}
+					}
 					side, plus := -1, int64(0)
-					switch bo.Op {
+					switch cmpOp {
 					case token.LSS:
 						side = 1
 					case token.GEQ:
@@ -1010,12 +1068,12 @@ func checkAztecReadCode(c *Ctx, r *Report, rule string) {
 					if len(succ.Preds) != 1 || !(succ == b || succ.Dominates(b)) {
 						continue
 					}
-					kc, kIsC := constIntOf(bo.Y)
+					kc, kIsC := constIntOf(kv)
 					nc, nIsC := constIntOf(n)
 					switch {
 					case kIsC && nIsC && kc+plus >= nc:
 						proven, why = true, fmt.Sprintf("dominating test leaves at least %d bits from this position", kc+plus)
-					case bo.Y == n:
+					case kv == n:
 						proven, why = true, "dominating test of the rest against the very length read"
 					}
 				}
@@ -1103,4 +1161,337 @@ func checkAztecCorners(c *Ctx, r *Report) {
 		}
 		reportFold(r, c, "T-AZCORNER", rkey, fd.Pos(), bad)
 	}
+}
+
+// singleDef returns the right-hand side of the only assignment to the local variable o in fd (nil if there is none or more than one).
+func singleDef(p *packages.Package, fd *ast.FuncDecl, o types.Object) ast.Expr {
+	var out ast.Expr
+	n := 0
+	ast.Inspect(fd.Body, func(nd ast.Node) bool {
+		switch x := nd.(type) {
+		case *ast.AssignStmt:
+			for i, l := range x.Lhs {
+				if id, ok := l.(*ast.Ident); ok && (p.TypesInfo.Defs[id] == o || p.TypesInfo.Uses[id] == o) {
+					n++
+					if len(x.Rhs) == len(x.Lhs) && (x.Tok == token.DEFINE || x.Tok == token.ASSIGN) {
+						out = x.Rhs[i]
+					} else {
+						n++
+					}
+				}
+			}
+		case *ast.IncDecStmt:
+			if identObj(p, x.X) == o {
+				n += 2
+			}
+		}
+		return true
+	})
+	if n != 1 {
+		return nil
+	}
+	return out
+}
+
+// differenceOf resolves e - directly, or through a variable assigned once - to `x - y` over two variables.
+func differenceOf(p *packages.Package, fd *ast.FuncDecl, e ast.Expr) (x, y types.Object) {
+	e = ast.Unparen(e)
+	if o := identObj(p, e); o != nil {
+		if d := singleDef(p, fd, o); d != nil {
+			e = ast.Unparen(d)
+		}
+	}
+	if be, ok := e.(*ast.BinaryExpr); ok && be.Op == token.SUB {
+		return identObj(p, be.X), identObj(p, be.Y)
+	}
+	return nil, nil
+}
+
+// T-AZROT: the corners handed to the grid sampler are the bull's-eye corners rotated by the orientation found
+func checkAztecRotation(c *Ctx, r *Report) {
+	r.Rule("T-AZROT", "Detector.Detect hands sampleGrid the four bull's-eye corners starting at the corner with three orientation marks and going round in order: the k-th corner argument is bullsEyeCorners[(shift+k) mod 4], an index in 0..3, for every orientation shift = 0..3 (the index expressions are folded); extractParameters reads the four sides of the mode message in the same rotated order", 2)
+	fd, p := c.funcDeclOf("aztec/detector", "Detector.Detect")
+	key := "aztec/detector.Detector.Detect/sampleGrid-corners"
+	if fd == nil || fd.Recv == nil || len(fd.Recv.List) == 0 || len(fd.Recv.List[0].Names) == 0 {
+		r.AnchorLost("T-AZROT", key, "method not found")
+		return
+	}
+	r.Analysed(key)
+	recv := p.TypesInfo.Defs[fd.Recv.List[0].Names[0]]
+	foldIdx := func(pk *packages.Package, recv types.Object, idx ast.Expr, extra map[types.Object]*Val, shift int64) (int64, error) {
+		env := map[types.Object]*Val{recv: {K: VStruct, Ptr: true, Fields: map[string]*Val{"shift": vint(shift)}}}
+		for k, v := range extra {
+			env[k] = v
+		}
+		v, err := c.rpfExpr(pk, idx, env, nil)
+		if err != nil {
+			return 0, err
+		}
+		if v.K != VInt {
+			return 0, fmt.Errorf("index is not an integer")
+		}
+		return v.I, nil
+	}
+	calls := findCalls(p, fd.Body, func(o types.Object) bool { return isMethodNamed(o, "aztec/detector", "Detector", "sampleGrid") })
+	if len(calls) != 1 || len(calls[0].Args) != 5 {
+		r.Undecided("T-AZROT", key, c.pos(fd.Pos()), "expected one call sampleGrid(image, four corners)")
+	} else {
+		bad := ""
+		var base types.Object
+		for k, a := range calls[0].Args[1:] {
+			ix, ok := ast.Unparen(a).(*ast.IndexExpr)
+			if !ok {
+				bad = fmt.Sprintf("?corner argument %d is not an element of the corner list", k)
+				break
+			}
+			o := identObj(p, ix.X)
+			if o == nil || (base != nil && o != base) {
+				bad = fmt.Sprintf("corner argument %d is not taken from the same corner list as the others", k)
+				break
+			}
+			base = o
+			for shift := int64(0); shift < 4 && bad == ""; shift++ {
+				got, err := foldIdx(p, recv, ix.Index, nil, shift)
+				if err != nil {
+					bad = "?" + err.Error()
+				} else if got != (shift+int64(k))%4 {
+					bad = fmt.Sprintf("orientation %d: corner argument %d is bullsEyeCorners[%d]; the corner that belongs there is bullsEyeCorners[%d]", shift, k, got, (shift+int64(k))%4)
+				}
+			}
+			if bad != "" {
+				break
+			}
+		}
+		if bad == "" && base != nil {
+			// the list is the one extractParameters looked at
+			ep := findCalls(p, fd.Body, func(o types.Object) bool { return isMethodNamed(o, "aztec/detector", "Detector", "extractParameters") })
+			if len(ep) != 1 || len(ep[0].Args) != 1 || identObj(p, ep[0].Args[0]) != base {
+				bad = "the corners sampled are not the list extractParameters determined the orientation of"
+			}
+		}
+		reportFold(r, c, "T-AZROT", key, calls[0].Pos(), bad)
+	}
+	// extractParameters: sides[(shift+i)%4]
+	fd2, p2 := c.funcDeclOf("aztec/detector", "Detector.extractParameters")
+	key2 := "aztec/detector.Detector.extractParameters/sides-order"
+	if fd2 == nil || fd2.Recv == nil || len(fd2.Recv.List[0].Names) == 0 {
+		r.AnchorLost("T-AZROT", key2, "method not found")
+		return
+	}
+	r.Analysed(key2)
+	recv2 := p2.TypesInfo.Defs[fd2.Recv.List[0].Names[0]]
+	// the sides: the list handed to getRotation
+	var sidesObj types.Object
+	for _, call := range findCalls(p2, fd2.Body, func(o types.Object) bool { return isFuncNamed(o, "aztec/detector", "getRotation") }) {
+		if len(call.Args) == 2 {
+			sidesObj = identObj(p2, call.Args[0])
+		}
+	}
+	bad := "?no read of the sides list inside a counted loop found"
+	ast.Inspect(fd2.Body, func(n ast.Node) bool {
+		fs, ok := n.(*ast.ForStmt)
+		if !ok {
+			return true
+		}
+		lr, ok := loopVarRange(p2, fs)
+		if !ok {
+			return true
+		}
+		lv, lo, hi := lr.v, lr.lo, lr.hi
+		ast.Inspect(fs.Body, func(m ast.Node) bool {
+			ix, ok := m.(*ast.IndexExpr)
+			if !ok {
+				return true
+			}
+			if sidesObj == nil || identObj(p2, ix.X) != sidesObj {
+				return true
+			}
+			bad = ""
+			if lo != 0 || hi != 4 {
+				bad = fmt.Sprintf("the sides are read for i = %d..%d, not 0..3", lo, hi-1)
+				return false
+			}
+			for shift := int64(0); shift < 4 && bad == ""; shift++ {
+				for i := int64(0); i < 4 && bad == ""; i++ {
+					got, err := foldIdx(p2, recv2, ix.Index, map[types.Object]*Val{lv: vint(i)}, shift)
+					if err != nil {
+						bad = "?" + err.Error()
+					} else if got != (shift+i)%4 {
+						bad = fmt.Sprintf("orientation %d: the %d-th side read is sides[%d]; expected sides[%d]", shift, i, got, (shift+i)%4)
+					}
+				}
+			}
+			return false
+		})
+		return false
+	})
+	reportFold(r, c, "T-AZROT", key2, fd2.Pos(), bad)
+}
+
+// resolvesToExternalVar reports whether e denotes the package-level variable pkgPath.name of a dependency, directly or
+// through a package-level variable of this module that is initialised with it and written nowhere else.
+func resolvesToExternalVar(c *Ctx, p *packages.Package, e ast.Expr, pkgPath, name string, depth int) bool {
+	var obj types.Object
+	switch x := ast.Unparen(e).(type) {
+	case *ast.Ident:
+		obj = p.TypesInfo.Uses[x]
+	case *ast.SelectorExpr:
+		obj = p.TypesInfo.Uses[x.Sel]
+	}
+	v, ok := obj.(*types.Var)
+	if !ok || v.Pkg() == nil || v.Parent() != v.Pkg().Scope() {
+		return false
+	}
+	if v.Pkg().Path() == pkgPath && v.Name() == name {
+		return true
+	}
+	if depth > 3 || !strings.HasPrefix(v.Pkg().Path(), modPath) {
+		return false
+	}
+	init, ip := c.varInitOfObj(v)
+	if init == nil || globalWrittenAfterInit(c, v) {
+		return false
+	}
+	return resolvesToExternalVar(c, ip, init, pkgPath, name, depth+1)
+}
+
+// globalWrittenAfterInit: some statement of the module assigns to the package-level variable v or takes its address.
+func globalWrittenAfterInit(c *Ctx, v *types.Var) bool {
+	written := false
+	for _, p := range c.PkgList {
+		if !strings.HasPrefix(p.PkgPath, modPath) {
+			continue
+		}
+		uses := func(e ast.Expr) bool {
+			switch x := ast.Unparen(e).(type) {
+			case *ast.Ident:
+				return p.TypesInfo.Uses[x] == v
+			case *ast.SelectorExpr:
+				return p.TypesInfo.Uses[x.Sel] == v
+			}
+			return false
+		}
+		for _, f := range p.Syntax {
+			ast.Inspect(f, func(n ast.Node) bool {
+				switch x := n.(type) {
+				case *ast.AssignStmt:
+					for _, l := range x.Lhs {
+						if uses(l) {
+							written = true
+						}
+					}
+				case *ast.IncDecStmt:
+					if uses(x.X) {
+						written = true
+					}
+				case *ast.UnaryExpr:
+					if x.Op == token.AND && uses(x.X) {
+						written = true
+					}
+				}
+				return !written
+			})
+		}
+	}
+	return written
+}
+
+// M-AZCHARSET: which character set the bytes of an Aztec symbol are read in
+func checkAztecCharset(c *Ctx, r *Report) {
+	r.Rule("M-AZCHARSET", "in Decoder.getEncodedData the character set whose decoder turns the collected bytes into text (the receiver of NewDecoder in every transform.Append) starts as charmap.ISO8859_1 - directly or through a package variable initialised with it and written nowhere else - which is the interpretation ISO 24778 gives bytes without an ECI, and is changed only to the GetCharset() of the CharacterSetECI looked up from an FLG(n) designator; the bytes collected so far are flushed with the old character set before that change", 1)
+	fd, p := c.funcDeclOf("aztec/decoder", "Decoder.getEncodedData")
+	key := "aztec/decoder.Decoder.getEncodedData/charset"
+	if fd == nil {
+		r.AnchorLost("M-AZCHARSET", key, "method not found")
+		return
+	}
+	r.Analysed(key)
+	isAppend := func(o types.Object) bool {
+		fn, ok := o.(*types.Func)
+		return ok && fn.Pkg() != nil && fn.Pkg().Path() == "golang.org/x/text/transform" && fn.Name() == "Append"
+	}
+	apps := findCalls(p, fd.Body, isAppend)
+	if len(apps) < 2 {
+		r.Undecided("M-AZCHARSET", key, c.pos(fd.Pos()), fmt.Sprintf("expected the flush before an ECI change and the final flush through transform.Append; found %d", len(apps)))
+		return
+	}
+	var enc types.Object
+	bad := ""
+	for _, a := range apps {
+		var o types.Object
+		if len(a.Args) == 3 {
+			if nd, ok := ast.Unparen(a.Args[0]).(*ast.CallExpr); ok {
+				if sel, ok := nd.Fun.(*ast.SelectorExpr); ok && sel.Sel.Name == "NewDecoder" {
+					o = identObj(p, sel.X)
+				}
+			}
+		}
+		if o == nil || (enc != nil && o != enc) {
+			bad = "?a transform.Append whose transformer is not <the character-set variable>.NewDecoder()"
+			break
+		}
+		enc = o
+	}
+	if bad == "" {
+		if v, ok := enc.(*types.Var); !ok || v.Parent() == v.Pkg().Scope() {
+			bad = "?the character set is not a local variable"
+		}
+	}
+	nInit, nECI := 0, 0
+	if bad == "" {
+		ast.Inspect(fd.Body, func(n ast.Node) bool {
+			as, ok := n.(*ast.AssignStmt)
+			if !ok || bad != "" {
+				return bad == ""
+			}
+			for i, l := range as.Lhs {
+				id, ok := l.(*ast.Ident)
+				if !ok {
+					continue
+				}
+				o := p.TypesInfo.Defs[id]
+				if o == nil {
+					o = p.TypesInfo.Uses[id]
+				}
+				if o != enc {
+					continue
+				}
+				if len(as.Rhs) != len(as.Lhs) {
+					bad = "?the character set is assigned from a multi-value expression"
+					return false
+				}
+				rhs := as.Rhs[i]
+				if as.Tok == token.DEFINE {
+					if !resolvesToExternalVar(c, p, rhs, "golang.org/x/text/encoding/charmap", "ISO8859_1", 0) {
+						bad = fmt.Sprintf("bytes without an ECI are read in %s, which is not (a fixed alias of) charmap.ISO8859_1", types.ExprString(rhs))
+						return false
+					}
+					nInit++
+					continue
+				}
+				call, ok := ast.Unparen(rhs).(*ast.CallExpr)
+				if !ok || !isMethodNamed(typeutil.Callee(p.TypesInfo, call), "common", "CharacterSetECI", "GetCharset") {
+					bad = fmt.Sprintf("the character set is changed to %s, which is not the GetCharset() of the ECI read from the symbol", types.ExprString(rhs))
+					return false
+				}
+				// a flush with the old character set precedes the change, in the same FLG(n) arm
+				flushed := false
+				for _, a := range apps {
+					if a.Pos() < as.Pos() {
+						flushed = true
+					}
+				}
+				if !flushed {
+					bad = "the character set is changed before the bytes collected so far are flushed"
+					return false
+				}
+				nECI++
+			}
+			return true
+		})
+	}
+	if bad == "" && (nInit != 1 || nECI < 1) {
+		bad = fmt.Sprintf("?expected one initialisation and the ECI change of the character set (found %d, %d)", nInit, nECI)
+	}
+	reportFold(r, c, "M-AZCHARSET", key, fd.Pos(), bad)
 }
